@@ -408,7 +408,9 @@ class UDPL(VSchedCheck):
             "until the read loop has picked the datagram up (counted at getConn's lock in the instrumented copy) and the history continues with a "
             "marker datagram from a sync remote and a blocking read of it on connection 0, after which the dispatch of the earlier datagram is "
             "complete; empty datagrams (1/8 of the arrivals) and a filter that admits empty datagrams; every Read and Close first checks that "
-            "the connection's RemoteAddr is still the one it was accepted with; distinct = distinct (config, operations)")
+            "the connection's RemoteAddr is still the one it was accepted with; the count limit of a connection's buffer is set now and then (a slow "
+            "reader's full buffer: datagrams dropped, connection kept), bursts of 3-5 datagrams of 4-8 KiB before Accept, oversize Conn.Write "
+            "calls that the socket refuses; distinct = distinct (config, operations)")
     trusted = ["tools/vrewrite (here only the call substitution net.ListenUDP -> in-memory socket matters; yield hooks are off)",
                "loopback tier: the kernel's UDP over 127.0.0.1 (no loss at these volumes); closure of the real socket is observed through SetWriteBuffer failing",
                "overlay file harness/overlay/udp/verif_export.go (queue length / buffered count accessors)", "testing/synctest (quiescence after each operation)"]
@@ -575,7 +577,8 @@ class C09(SeqCheck):
     level_note = ("trusted: Coq kernel, extraction + driver, harness; the runtime's timer contract (Stop reports whether it prevented the firing; a due "
                   "timer is eventually dispatched and its callback eventually runs) is the model's environment, i.e. 'fires exactly when' holds modulo "
                   "timer delivery; fewer than 254 callbacks outstanding (uint8 counter); timer_js.go not covered")
-    rule = ("event sequences of 8-48 events + settle phase: Set(zero | past | now | now+1 | future), Advance(0,1,50,150,400 ns), Dispatch (if the fake "
+    rule = ("event sequences of 8-48 events + settle phase: Set(zero | past | now | now+1 | future | 2 s to 17 min ahead), after every event an armed "
+            "fake timer must be armed for the deadline in force (within 1 ms), Advance(0,1,50,150,400 ns), Dispatch (if the fake "
             "timer is armed and due), RunCallback (if one is outstanding); non-trivial = Done got closed at least once; distinct = distinct event list")
     trusted = ["overlay file harness/overlay/deadline/verif_export.go (fake timer implementing the unexported timer interface, VerifNew, VerifTimeout)",
                "testing/synctest fake clock"]
